@@ -107,6 +107,41 @@ def check(ctx):
             metas.append(("feat", case | {"path": p}, name, log,
                           [row for row in allv[p]],
                           [(st, (v.to(torch.float64)[p, 0].tolist() if st == "ok" else v)) for st, v in ats]))
+    # ------------------------------------------------------------------ time to maturity on non-dyadic grids in double precision
+    import pfhedge.instruments as I
+    for it in range(24 if ctx.tier == "quick" else 300):
+        dtv = g.choice([1 / 250, 0.1, 1 / 365, 1 / 12, 0.01, 1 / 52])
+        ksteps = g.choice([1, 2, 5, 9, 30])
+        dname = g.choice(["float64", "float64", "float32"])
+        stock = I.BrownianStock(dt=dtv, dtype=getattr(torch, dname))
+        d = g.choice([I.EuropeanOption, I.LookbackOption])(stock, maturity=ksteps * dtv)
+        torch.manual_seed(g.randint(0, 10 ** 6))
+        d.simulate(n_paths=2)
+        T = stock.spot.size(1)
+        case = {"ttm_grid": True, "dt": dtv, "steps": ksteps, "dtype": dname, "T": T}
+        ctx.case(case, True, tag="ttm_grid")
+        from pfhedge.features._getter import get_feature
+        for fname in ("time_to_maturity", "expiry_time"):
+            try:
+                f = get_feature(fname).of(d, None)
+            except Exception:  # noqa
+                continue
+            with torch.no_grad():
+                allv = f.get(None)
+                for i in range(T):
+                    at = f.get(i)
+                    col = allv[:, [i]]
+                    if at.shape != col.shape or at.dtype != col.dtype:
+                        ctx.fail(f"feature {fname}: get(i) and column i of get(None) differ in shape / dtype", case | {"i": i}, key=f"feature:{fname}:step-vs-all")
+                        break
+                    a_, b_ = at.to(torch.float64).reshape(-1).tolist(), col.to(torch.float64).reshape(-1).tolist()
+                    # identity of real numbers; in floating point (T-1)dt - i dt and (T-1-i) dt differ by a few ulp OF THE DTYPE
+                    ulp = 2.0 ** -52 if dname == "float64" else 2.0 ** -23
+                    # (the batched form subtracts two grid times: its rounding error is relative to the horizon (T-1) dt)
+                    if any(abs(x - y) > 8 * ulp * max(abs(x), abs(y), (T - 1) * dtv) for x, y in zip(a_, b_)):
+                        ctx.fail(f"feature {fname}: get(i) differs from column i of get(None) beyond rounding of the instrument's dtype", case | {"i": i},
+                                 key=f"feature:{fname}:step-vs-all", detail={"at": a_, "col": b_})
+                        break
     # ------------------------------------------------------------------ hedges in both modes
     n_h = 150 if ctx.tier == "quick" else 2500
     for _ in range(n_h):
@@ -146,9 +181,33 @@ def check(ctx):
             st2, out2, mut = call_impl(h_step.compute_hedge, d, hedge, watch=[("derivative", d)])
             if mut:
                 ctx.mutated("compute_hedge(stepwise)", mut, case)
+            # a SECOND evaluation on the same hedger objects (same path count, same instruments): the recurrent state left by the
+            # first must not leak into it
+            rec_first = list(rec)
+            del rec[:]
+            inject(torch, u, mk)
+            st2b, out2b, mut = call_impl(h_step.compute_hedge, d, hedge, watch=[("derivative", d)])
+            rec_second = list(rec)
+            del rec[:]
+            rec.extend(rec_first)
+            # a model that really consumes prev_hedge, evaluated twice
+            msp = gen_linear(g, k + H, H)
+            h_prev = Hedger(model_obj(torch, msp), [feature_obj(torch, n, mk, thr) for n in names] + ["prev_hedge"])
+            inject(torch, u, mk)
+            st3, out3, _ = call_impl(h_prev.compute_hedge, d, hedge)
+            inject(torch, u, mk)
+            st3b, out3b, _ = call_impl(h_prev.compute_hedge, d, hedge)
         ctx.case(case, nontrivial=True, tag="hedge_modes")
         ctx.traces += 1
         ctx.stats[f"model={kindm}"] += 1
+        if st2 == "ok" and (st2b != "ok" or not torch.equal(out2, out2b) or len(rec_second) != len(rec_first)
+                            or any(not torch.equal(a_, b_) for a_, b_ in zip(rec_first, rec_second))):
+            ctx.fail("a second step-by-step evaluation on the same hedger sees different model inputs (prev_hedge at step 0 must be zero again)", case,
+                     key="compute_hedge:second-evaluation", detail={"first_step0": rec_first[0].tolist() if rec_first else None,
+                                                                    "second_step0": rec_second[0].tolist() if rec_second else None})
+        if st3 == "ok" and (st3b != "ok" or not torch.equal(out3, out3b)):
+            ctx.fail("a hedger consuming prev_hedge gives a different hedge when evaluated a second time on the same market", case | {"prev_model": model_json(msp)},
+                     key="compute_hedge:second-evaluation", detail={"first": out3.tolist(), "second": out3b.tolist() if st3b == "ok" else str(out3b)})
         if st1 != "ok" or st2 != "ok":
             ctx.fail("compute_hedge raised on a well-formed market", case, key="compute_hedge:error", detail=[str(out1)[:100], str(out2)[:100]])
             continue
